@@ -22,6 +22,8 @@ type EvalCtx struct {
 	ghostOld map[string]string
 	depth int
 	inQuant bool
+	callsOv map[string]string // calls(name) values inside an applied contract
+	retOv   map[string]Val    // ret(name): what the function-valued argument returned
 }
 
 func (e *EvalCtx) fail(format string, a ...interface{}) Val {
@@ -134,6 +136,9 @@ func (e *EvalCtx) ident(name string) Val {
 		if obj := e.pkg.Scope().Lookup(name); obj != nil {
 			return e.object(obj)
 		}
+	}
+	if tp, ok := e.c.eng.allPkgs[name]; ok && isHeliosPkg(tp) {
+		return Val{K: KOpaque, T: "pkg:" + name}
 	}
 	if name == "TZERO" {
 		return Val{K: KInt, T: "TZERO", Typ: e.c.eng.timeType}
@@ -253,6 +258,13 @@ func sortVal(srt, t string) Val {
 }
 
 func (e *EvalCtx) field(x Val, f string) Val {
+	if x.K == KOpaque && strings.HasPrefix(x.T, "pkg:") {
+		tp := e.c.eng.allPkgs[x.T[4:]]
+		if obj := tp.Scope().Lookup(f); obj != nil {
+			return e.object(obj)
+		}
+		return e.fail("no %s in package %s", f, x.T[4:])
+	}
 	switch x.K {
 	case KStruct, KTuple:
 		if st := structOf(x.Typ); st != nil {
@@ -275,7 +287,14 @@ func (e *EvalCtx) field(x Val, f string) Val {
 					if isOpaqueExternal(st.Field(i).Type()) {
 						return ptr // opaque library object embedded by value: denote it by its address (ghost fields hang off it)
 					}
-					return e.c.load(e.p, e.heap, ptr, st.Field(i).Type())
+					fv := e.c.load(e.p, e.heap, ptr, st.Field(i).Type())
+					if !e.inQuant && fv.K == KInt {
+						// every value stored in a typed field is a value of that type
+						if f := rangeFact(fv.T, st.Field(i).Type()); f != "" {
+							e.c.axiom(f)
+						}
+					}
+					return fv
 				}
 			}
 		}
@@ -460,6 +479,14 @@ func (e *EvalCtx) call(n ECall) Val {
 			e.fail("calls(name)")
 		}
 		k := "$calls:" + id.Name
+		if e.callsOv != nil {
+			if e.heap == e.old && e.old != nil {
+				return intVal("0")
+			}
+			if t, ok := e.callsOv[id.Name]; ok {
+				return intVal(t)
+			}
+		}
 		if e.heap == e.old && e.old != nil {
 			if t, ok := e.ghostOld[k]; ok {
 				return intVal(t)
@@ -470,6 +497,26 @@ func (e *EvalCtx) call(n ECall) Val {
 			return intVal(t)
 		}
 		return intVal("0")
+	case "ret": // ret(fn): the value the function-valued parameter fn returned (when it was called)
+		id, ok := n.Args[0].(EIdent)
+		if !ok {
+			e.fail("ret(name)")
+		}
+		if e.retOv != nil {
+			if v, ok := e.retOv[id.Name]; ok {
+				return v
+			}
+		}
+		if v, ok := e.p.fnret[id.Name]; ok {
+			return v
+		}
+		// not called on this path: an arbitrary value of the parameter's result type
+		for _, prm := range e.c.fn.Params {
+			if sig, ok := prm.Type().Underlying().(*types.Signature); ok && prm.Name() == id.Name && sig.Results().Len() > 0 {
+				return e.c.symbolic(e.p, "noret_"+id.Name, sig.Results().At(0).Type())
+			}
+		}
+		return e.fail("ret(%s): no call of %s on this path", id.Name, id.Name)
 	case "unlocked":
 		return boolVal("(= " + arg(0).T + " 0)")
 	case "rlocked":
@@ -715,6 +762,11 @@ func clauseLabel(cl Clause, i int, kind string) string {
 
 func (c *FnCtx) applyContract(p *Path, fc *FuncContract, fn *ssa.Function, args []Val, resT *types.Tuple, name string, pos token.Pos) []outcome {
 	env := c.bindParams(fc, fn, args)
+	for k, v := range c.extraEnv {
+		if _, dup := env[k]; !dup {
+			env[k] = v
+		}
+	}
 	c.derefFreeVars(p, &p.heap, fn, env)
 	pkg := c.eng.pkgByDir(fc.Pkg)
 	if fn != nil && fn.Pkg != nil {
@@ -729,11 +781,123 @@ func (c *FnCtx) applyContract(p *Path, fc *FuncContract, fn *ssa.Function, args 
 		c.oblige(p, "pre", shortName(name)+"."+clauseLabel(cl, i, "requires"), t, cl.Src, nil)
 		p.assume(t)
 	}
+	// higher-order application: a function-valued parameter whose calls the contract counts, bound to a
+	// closure known on this path. The callee calls it at most once (that is checked on the callee); here the
+	// closure's own effect is obtained by running it, separately for "not called" and "called once".
+	if fn != nil && !hoActive(p) {
+		for i, prm := range fn.Params {
+			if _, isSig := prm.Type().Underlying().(*types.Signature); !isSig || i >= len(args) || args[i].Fn == nil {
+				continue
+			}
+			if !contractMentions(fc, "calls("+prm.Name()+")") {
+				continue
+			}
+			return c.applyHO(p, fc, fn, args, resT, name, pos, env, pkg, prm.Name(), args[i])
+		}
+	}
+	return c.finishContract(p, fc, fn, resT, name, env, pkg, nil, nil)
+}
+
+func hoActive(p *Path) bool { return false }
+
+func contractMentions(fc *FuncContract, s string) bool {
+	for _, cl := range fc.Ensures {
+		if strings.Contains(strings.ReplaceAll(cl.Src, " ", ""), s) {
+			return true
+		}
+	}
+	for _, cl := range fc.EnsuresP {
+		if strings.Contains(strings.ReplaceAll(cl.Src, " ", ""), s) {
+			return true
+		}
+	}
+	return false
+}
+
+func (c *FnCtx) applyHO(p *Path, fc *FuncContract, fn *ssa.Function, args []Val, resT *types.Tuple, name string, pos token.Pos,
+	env map[string]Val, pkg *types.Package, pname string, fv Val) []outcome {
+	var outs []outcome
+	// not called
+	qa := p.clone()
+	for _, o := range c.finishContract(qa, fc, fn, resT, name, env, pkg, map[string]string{pname: "0"}, nil) {
+		if !o.panic { // the callee's own panics come only from the callback
+			outs = append(outs, o)
+		}
+	}
+	// called once: pre-state for old() is the state before the callback ran
+	oldH := p.heap.clone()
+	oldNow := p.now
+	for _, ob := range c.callFunction(p, fv.Fn, nil, fv.Bind, pos) {
+		var rv Val
+		if len(ob.ret) > 0 {
+			rv = ob.ret[0]
+		}
+		ov := map[string]string{pname: "1"}
+		rm := map[string]Val{pname: rv}
+		if ob.panic {
+			q := ob.p
+			post := &EvalCtx{c: c, p: q, env: env, heap: &q.heap, old: &oldH, oldNow: oldNow, pkg: pkg, callsOv: ov}
+			for _, m := range fc.Modifies {
+				c.havocLoc(q, post, m)
+			}
+			for _, cl := range fc.EnsuresP {
+				if cl.Seq && c.mode != "seq" {
+					continue
+				}
+				if t, ok := c.evalClause(post, cl, "ensures_panic of "+name); ok {
+					q.assume(t)
+				}
+			}
+			outs = append(outs, outcome{p: q, panic: true})
+			continue
+		}
+		for _, o := range c.finishContractOld(ob.p, fc, fn, resT, name, env, pkg, ov, rm, &oldH, oldNow) {
+			if !o.panic {
+				outs = append(outs, o)
+			}
+		}
+	}
+	return outs
+}
+
+func (c *FnCtx) finishContract(p *Path, fc *FuncContract, fn *ssa.Function, resT *types.Tuple, name string, env map[string]Val, pkg *types.Package,
+	callsOv map[string]string, retOv map[string]Val) []outcome {
+	return c.finishContractOld(p, fc, fn, resT, name, env, pkg, callsOv, retOv, nil, "")
+}
+
+func (c *FnCtx) finishContractOld(p *Path, fc *FuncContract, fn *ssa.Function, resT *types.Tuple, name string, env map[string]Val, pkg *types.Package,
+	callsOv map[string]string, retOv map[string]Val, oldIn *HeapView, oldNowIn string) []outcome {
+	pre := &EvalCtx{c: c, p: p, env: env, heap: &p.heap, pkg: pkg}
 	old := p.heap.clone()
 	oldNow := p.now
+	if oldIn != nil {
+		old = *oldIn
+		oldNow = oldNowIn
+	}
 	ghostOld := map[string]string{}
 	for k, v := range p.ghost {
 		ghostOld[k] = v
+	}
+	if retOv == nil && fn != nil {
+		retOv = map[string]Val{}
+		for _, prm := range fn.Params {
+			if sig, isSig := prm.Type().Underlying().(*types.Signature); isSig && sig.Results().Len() > 0 {
+				retOv[prm.Name()] = c.symbolic(p, "ret_"+prm.Name(), sig.Results().At(0).Type())
+			}
+		}
+	}
+	if callsOv == nil {
+		// calls(f) of function-valued parameters bound to values we cannot run: some non-negative count
+		callsOv = map[string]string{}
+		if fn != nil {
+			for _, prm := range fn.Params {
+				if _, isSig := prm.Type().Underlying().(*types.Signature); isSig {
+					n := c.fresh("calls_"+prm.Name(), "Int")
+					p.assume("(>= " + n + " 0)")
+					callsOv[prm.Name()] = n
+				}
+			}
+		}
 	}
 	// havoc what the callee may modify
 	for _, m := range fc.Modifies {
@@ -754,7 +918,7 @@ func (c *FnCtx) applyContract(p *Path, fc *FuncContract, fn *ssa.Function, args 
 		}
 	}
 	mk := func(q *Path, clauses []Clause) {
-		post := &EvalCtx{c: c, p: q, env: env, heap: &q.heap, old: &old, oldNow: oldNow, pkg: pkg, ghostOld: ghostOld}
+		post := &EvalCtx{c: c, p: q, env: env, heap: &q.heap, old: &old, oldNow: oldNow, pkg: pkg, ghostOld: ghostOld, callsOv: callsOv, retOv: retOv}
 		for _, cl := range clauses {
 			if cl.Seq && c.mode != "seq" {
 				continue
